@@ -1,6 +1,6 @@
 (* C37: the theorems of AddrManMain instantiated with the constants of the compiled tree (model/AddrManInst.v). *)
 From BV Require Import lib.Ints gen.Params_gen model.AddrMan model.AddrManInst proofs.AddrManMaps proofs.AddrManInv proofs.AddrManOps
-  proofs.AddrManSteps proofs.AddrManFrames proofs.AddrManCheck proofs.AddrManMain.
+  proofs.AddrManSteps proofs.AddrManFrames proofs.AddrManCheck proofs.AddrManMain proofs.AddrManSer.
 Local Open Scope Z_scope.
 
 (* the keyed hashes end in "% ADDRMAN_*_BUCKET_COUNT" / "% ADDRMAN_BUCKET_SIZE": their values lie inside the tables *)
@@ -65,4 +65,11 @@ Section Real.
                             sfind (nslot new_bucket bucket_pos (a_key old) (a_src old)) (s_new s) = Some id0)) /\
     (forall k0, find_addr s k0 = None -> find_addr s' k0 = None).
   Proof. intros R. apply (MAIN good_effect). apply real_reach_inv; auto. Qed.
+  Lemma real_serialize_ok s order : reachable s -> NoDup order -> (forall id, In id order <-> In id (keys (s_info s))) ->
+    exists f, serialize real_cfg s order = Ok f /\ f_nnew f = s_nnew s /\ f_ntried f = s_ntried s /\
+      zlen (f_new f) = s_nnew s /\ zlen (f_tried f) = s_ntried s /\
+      (forall id a, zfind id (s_info s) = Some a ->
+         In (mkSentry (a_key a) (a_src a) (a_time a) (a_services a) (a_last_success a) (a_attempts a)) (if a_tried a then f_tried f else f_new f)) /\
+      (forall e, In e (f_new f) \/ In e (f_tried f) -> exists id a, zfind id (s_info s) = Some a /\ e = entry_of a).
+  Proof. intros R. destruct (real_reach_inv s R) as (G & _). apply (serialize_ok real_cfg tried_bucket bucket_pos routable network s order G). Qed.
 End Real.
